@@ -6,9 +6,19 @@
 //! Streams (field "s" of the case json):
 //!   F  one filter/operator call with an exact Lean model  (result value compared with the model)
 //!   C  one filter/function call checked against its safety class only
+//!   G  table-driven: EVERY registered callable (filters, tests, functions, pycompat methods; names read
+//!      from stdin = the table regenerated from the sources) on Safe/Normal x metacharacter / escaped-entity
+//!      bearing subjects and argument shapes; only successful calls are printed, errors are summarised
+//!      per callable in a `G#` line
 //!   P  generated program: templates + context + the program AST as S-expression for the Lean
 //!      interpreter `execProg` (outputs compared)
+//!      (import-as-module / from-import with aliases, library variables, libraries and parents whose names
+//!      select other modes, child statements outside blocks, all autoescape values, custom callback / formatter)
 //!   W  the body of a P program wrapped in a capture construct must render identically
+//!   T  every way a value, a macro or output crosses between two templates x the modes their names select
+//!   B  `render_captured` + `State::render_block`
+//!   E  `Environment::compile_expression` + `Expression::eval`: the value with its Safe bits
+//!   R  `Environment::set_formatter` (documented wrapper) on every printing path; `AutoEscape::Custom`
 //!   M  mode probes: capture inside an `autoescape` region, printed under Html
 //!   N  template-name → initial auto-escape
 //!   K  values of every kind (bytes valid/invalid UTF-8, floats, 128-bit integers, objects, containers
@@ -197,28 +207,71 @@ fn dec_value(s: &str) -> Value {
 }
 
 // ------------------------------------------------------------------------------- running
+fn err_kind(e: &minijinja::Error) -> String {
+    if std::env::var("C02_VERBOSE").is_ok() {
+        eprintln!("{:#}", e);
+    }
+    let mut k = error_kind_name(e);
+    let mut src: Option<&dyn std::error::Error> = std::error::Error::source(e);
+    while let Some(s) = src {
+        if let Some(me) = s.downcast_ref::<minijinja::Error>() {
+            k = error_kind_name(me);
+        }
+        src = s.source();
+    }
+    format!("ERR:{}", k)
+}
+
+/// what to do with the environment: `Template::render`, `render_captured` + `State::render_block`,
+/// `Expression::eval` (the value is put into PROBE)
+enum Entry {
+    Render,
+    Block(String),
+    Expr(String),
+}
+
 /// templates + context → rendered main template or error kind
-fn render(templates: &BTreeMap<String, String>, main: &str, ctx: &BTreeMap<String, String>) -> Result<String, String> {
+fn render(templates: &BTreeMap<String, String>, main: &str, ctx: &BTreeMap<String, String>, modes: &BTreeMap<String, String>, fmt: &str, entry: &Entry) -> Result<String, String> {
     let mut env = mk_env();
+    if !modes.is_empty() {
+        // `Environment::set_auto_escape_callback`: the custom callback decides some names, the default the rest
+        let modes = modes.clone();
+        env.set_auto_escape_callback(move |name| match modes.get(name).map(|s| s.as_str()) {
+            Some("h") => minijinja::AutoEscape::Html,
+            Some("n") => minijinja::AutoEscape::None,
+            Some("j") => minijinja::AutoEscape::Json,
+            _ => minijinja::default_auto_escape_callback(name),
+        });
+    }
+    if fmt == "noneundef" {
+        // the wrapper documented at `Environment::set_formatter`
+        env.set_formatter(|out, state, value| {
+            minijinja::escape_formatter(out, state, if value.is_none() { &Value::UNDEFINED } else { value })
+        });
+    }
     for (n, s) in templates {
         env.add_template_owned(n.clone(), s.clone()).map_err(|e| format!("ERR:{}", error_kind_name(&e)))?;
     }
     let c: BTreeMap<String, Value> = ctx.iter().map(|(k, v)| (k.clone(), dec_value(v))).collect();
-    let t = env.get_template(main).map_err(|e| format!("ERR:{}", error_kind_name(&e)))?;
-    t.render(Value::from(c)).map_err(|e| {
-        if std::env::var("C02_VERBOSE").is_ok() {
-            eprintln!("{:#}", e);
+    match entry {
+        Entry::Render => {
+            let t = env.get_template(main).map_err(|e| format!("ERR:{}", error_kind_name(&e)))?;
+            t.render(Value::from(c)).map_err(|e| err_kind(&e))
         }
-        let mut k = error_kind_name(&e);
-        let mut src: Option<&dyn std::error::Error> = std::error::Error::source(&e);
-        while let Some(s) = src {
-            if let Some(me) = s.downcast_ref::<minijinja::Error>() {
-                k = error_kind_name(me);
-            }
-            src = s.source();
+        Entry::Block(b) => {
+            let t = env.get_template(main).map_err(|e| format!("ERR:{}", error_kind_name(&e)))?;
+            let mut cap = t.render_captured(Value::from(c)).map_err(|e| err_kind(&e))?;
+            let full = cap.output().to_string();
+            let blk = cap.with_state_mut(|st| st.render_block(b)).map_err(|e| err_kind(&e))?;
+            Ok(full + &blk)
         }
-        format!("ERR:{}", k)
-    })
+        Entry::Expr(src) => {
+            let ex = env.compile_expression(src).map_err(|e| format!("ERR:{}", error_kind_name(&e)))?;
+            let v = ex.eval(Value::from(c)).map_err(|e| err_kind(&e))?;
+            *PROBE.lock().unwrap() = Some(v);
+            Ok(String::new())
+        }
+    }
 }
 
 fn run_case(case: &serde_json::Value) -> String {
@@ -232,13 +285,25 @@ fn run_case(case: &serde_json::Value) -> String {
         .map(|o| o.iter().map(|(k, v)| (k.clone(), v.as_str().unwrap().to_string())).collect())
         .unwrap_or_default();
     let main = case["main"].as_str().unwrap_or("main.html").to_string();
+    let modes: BTreeMap<String, String> = case["modes"]
+        .as_object()
+        .map(|o| o.iter().map(|(k, v)| (k.clone(), v.as_str().unwrap().to_string())).collect())
+        .unwrap_or_default();
+    let fmt = case["fmt"].as_str().unwrap_or("default").to_string();
+    let entry = if let Some(b) = case["block"].as_str() {
+        Entry::Block(b.to_string())
+    } else if let Some(e) = case["exprsrc"].as_str() {
+        Entry::Expr(e.to_string())
+    } else {
+        Entry::Render
+    };
     *PROBE.lock().unwrap() = None;
-    let r = guarded(|| render(&templates, &main, &ctx));
+    let r = guarded(|| render(&templates, &main, &ctx, &modes, &fmt, &entry));
     match r {
         Err(p) => format!("PANIC:{}", enc_str(&p)),
         Ok(Err(e)) => e,
         Ok(Ok(out)) => {
-            if s == "F" || s == "C" {
+            if s == "F" || s == "C" || s == "G" || s == "E" {
                 match PROBE.lock().unwrap().take() {
                     Some(v) => format!("OK\t{}\t-", enc_value(&v)),
                     None => "ERR:NoProbe".into(),
@@ -266,6 +331,7 @@ fn subst(t: &str, pass: usize) -> String {
             'k' => k2,
             '‹' => '{',
             '›' => '}',
+            'ǫ' => 'q', // a literal `q` (as in `&quot;`) that is not the data-metacharacter placeholder
             c => c,
         })
         .collect()
@@ -686,10 +752,12 @@ static FDEFS: &[FDef] = &[
     c("urlencode", "a0|urlencode", &["YI{Qq}"]),
     c("striptags", "a0|striptags", &["YV{KbkQq}"]),
     // ---- contrib filters / functions behind cargo features (skipped by the checker if not registered)
-    c("random", "a0|random", &["L(s0;s1;s2)"]),
-    c("random", "a0|random", &["s0"]),
-    c("lipsum", "lipsum(1, html=true)", &[]),
-    c("lipsum", "lipsum(2, min=3, max=5)", &[]),
+    // `random`: the model is told which index the generator picked; `lipsum`: which text it assembled
+    f("random", "a0|random", &["L(s0;s1;s2)"], "random", &[]),
+    f("random", "a0|random", &["s0"], "random", &[]),
+    f("random", "a0|random", &["c0{QαqQ|Kik&lt;K}"], "random", &[]),
+    f("lipsum", "lipsum(1, html=true)", &[], "lipsum", &[1]),
+    f("lipsum", "lipsum(2, min=3, max=5)", &[], "lipsum", &[0]),
     c("wordcount", "a0|wordcount", &["s0"]),
     c("wordwrap", "a0|wordwrap(width=4)", &["s0"]),
     c("wordwrap", "a0|wordwrap(width=3, wrapstring=a1)", &["s3", "c1{Q|K}"]),
@@ -772,7 +840,32 @@ fn gen_fc(out: &mut impl Write, tier: &str) {
                         Some(t) => t.to_string(),
                         None => format!("{{{{ probe({}) }}}}", def.expr),
                     };
+                    // the engine first: `random` / `lipsum` models are parameterised by what the generator drew
+                    let res = run_case(&json!({"s": "F", "t": {"main.html": src.clone()}, "ctx": ctx.clone()}));
+                    let drawn: Option<Vec<u64>> = match def.name {
+                        "random" => res.split('\t').nth(1).and_then(|enc| {
+                            let items: Vec<String> = if let Some(inner) = encs[0].strip_prefix("L(") {
+                                inner.trim_end_matches(')').split(';').map(|x| x.to_string()).collect()
+                            } else {
+                                let body = &encs[0][3..];
+                                if body == "-" { vec![] } else { body.split('.').map(|cp| format!("S0:{cp}")).collect() }
+                            };
+                            let norm = |x: &str| if encs[0].starts_with('L') { x.to_string() } else { x.replacen("S1:", "S0:", 1) };
+                            items.iter().position(|it| norm(it) == norm(enc)).map(|k| vec![k as u64])
+                        }),
+                        "lipsum" => res.split('\t').nth(1).and_then(|enc| enc.get(3..)).map(|cps| {
+                            let mut v = vec![def.model.unwrap().1[0]];
+                            if cps != "-" { v.extend(cps.split('.').map(|c| c.parse::<u64>().unwrap())); }
+                            v
+                        }),
+                        _ => None,
+                    };
                     let model = def.model.and_then(|(name, ps)| {
+                        let ps: Vec<u64> = match (&drawn, def.name) {
+                            (Some(d), _) => d.clone(),
+                            (None, "random") | (None, "lipsum") => return None,
+                            _ => ps.to_vec(),
+                        };
                         let mut steps = vec![];
                         let mut nreg = 0;
                         let mut regs = vec![];
@@ -788,7 +881,7 @@ fn gen_fc(out: &mut impl Write, tier: &str) {
                         steps.push(format!(
                             "A {} h {} {}",
                             name,
-                            regs.iter().map(|r| r.to_string()).collect::<Vec<_>>().join(","),
+                            if regs.is_empty() { "-".to_string() } else { regs.iter().map(|r| r.to_string()).collect::<Vec<_>>().join(",") },
                             if ps.is_empty() { "-".into() } else { ps.iter().map(|p| p.to_string()).collect::<Vec<_>>().join(",") }
                         ));
                         Some(steps.join("|"))
@@ -801,11 +894,115 @@ fn gen_fc(out: &mut impl Write, tier: &str) {
                         "pattern": pattern, "dm": format!("{q1}{q2}"),
                         "t": {"main.html": src}, "ctx": ctx, "args": encs, "model": model,
                     });
-                    let res = run_case(&case);
                     writeln!(out, "{}\t{}", case, res).unwrap();
                 }
             }
         }
+    }
+}
+
+
+// ------------------------------------------------------------------------------- stream G
+/// subjects (`a0`): a Safe string that holds markup AND escaped data (`&lt; &#x27; &amp;quot; …` — a
+/// decoding filter turns them back into metacharacters), unmarked data, containers of both, a number
+const G_SUBJECTS: [(&str, &str); 9] = [
+    ("safe-entities", "k{KbkαK/bk &lt;β&gt;&ǫuot;γ&#x27;&#39;&#34;&#60;&#x3e; &amp;lt;δ&amp;ǫuot;&LT;&GT;&apos;}"),
+    ("normal", "n{QαqβQ α& &lt;}"),
+    ("normal-short", "n{Qq}"),
+    ("safe-plain", "k{Kbk β}"),
+    ("list-mixed", "L(k{Kik&lt;&#39;&ǫuot;&gt;};n{Qαq};k{KβK})"),
+    ("map-mixed", "M(k=k{Kik&lt;&#39;&ǫuot;&gt;};v=n{Qαq})"),
+    ("int", "I:3"),
+    ("normal-entities", "n{&lt;Q&#39;&ǫuot;q&gt;}"),
+    ("list-int", "L(I:1;I:2)"),
+];
+const G_EXTRAS: [&[&str]; 9] = [
+    &[], &["n{Qα}"], &["k{Kβk&ǫuot;&#x27;}"], &["I:1"], &["n{Qα}", "k{Kβk&ǫuot;&#x27;}"], &["k{Kβk&ǫuot;&#x27;}", "n{Qα}"],
+    &["I:2", "n{Qα}"], &["n{Qα}", "n{qβ}"], &["n{ }", "I:1"],
+];
+
+fn gen_generic(out: &mut impl Write, callables: &[(String, String)]) {
+    for (kind, name) in callables {
+        let mut ok = 0u64;
+        let mut errors: BTreeMap<String, u64> = BTreeMap::new();
+        for pass in 0..2 {
+            for (slabel, sdsl) in G_SUBJECTS.iter() {
+                for extras in G_EXTRAS.iter() {
+                    let mut dsl: Vec<&str> = vec![sdsl];
+                    dsl.extend_from_slice(extras);
+                    let encs: Vec<String> = dsl.iter().map(|a| arg_enc(&parse_arg(a), 0, pass, 0)).collect();
+                    let rest: Vec<String> = (1..encs.len()).map(|i| format!("a{i}")).collect();
+                    let (expr, owner) = match kind.as_str() {
+                        "filter" => (if rest.is_empty() { format!("a0|{name}") } else { format!("a0|{name}({})", rest.join(", ")) }, name.clone()),
+                        // tests registered under operator symbols are reachable through `select("==", …)` only
+                        "test" if !name.chars().all(|c| c.is_alphanumeric() || c == '_') => (format!("[a0]|select(\"{name}\"{}{})|list", if rest.is_empty() { "" } else { ", " }, rest.join(", ")), format!("test:{name}")),
+                        "test" => (if rest.is_empty() { format!("(a0 is {name})") } else { format!("(a0 is {name}({}))", rest.join(", ")) }, format!("test:{name}")),
+                        "function" => (format!("{name}(a0{}{})", if rest.is_empty() { "" } else { ", " }, rest.join(", ")), name.clone()),
+                        _ => {
+                            let m = name.split('.').nth(1).unwrap_or(name);
+                            (format!("a0.{m}({})", rest.join(", ")), name.clone())
+                        }
+                    };
+                    let mut ctx = serde_json::Map::new();
+                    for (i, e) in encs.iter().enumerate() {
+                        ctx.insert(format!("a{i}"), json!(e));
+                    }
+                    ctx.insert("RAND_SEED".into(), json!("I:42"));
+                    let ((q1, q2), _) = metas(pass);
+                    let case = json!({
+                        "s": "G", "kind": kind, "name": owner, "expr": expr, "pattern": format!("{slabel}/{}", extras.len()), "dm": format!("{q1}{q2}"),
+                        "t": {"main.html": format!("{{{{ probe({expr}) }}}}")}, "ctx": ctx, "args": encs,
+                    });
+                    let res = run_case(&case);
+                    if res.starts_with("OK") || res.starts_with("PANIC") {
+                        ok += 1;
+                        writeln!(out, "{}\t{}", case, res).unwrap();
+                    } else {
+                        *errors.entry(res).or_insert(0) += 1;
+                    }
+                }
+            }
+        }
+        // every filter also through `map`: applied to the items of a list of Safe and unmarked strings
+        if kind == "filter" {
+            for pass in 0..2 {
+                for extras in [&[][..], &["n{Qα}"][..], &["k{Kβk&ǫuot;&#x27;}"][..], &["n{Qα}", "k{Kβ}"][..]] {
+                    let mut dsl: Vec<&str> = vec!["L(k{Kik&lt;&#39;&ǫuot;&gt;&amp;lt;};n{Qαq};k{KβK})"];
+                    dsl.extend_from_slice(extras);
+                    let encs: Vec<String> = dsl.iter().map(|a| arg_enc(&parse_arg(a), 0, pass, 0)).collect();
+                    let rest: String = (1..encs.len()).map(|i| format!(", a{i}")).collect();
+                    let expr = format!("a0|map(\"{name}\"{rest})|list");
+                    let mut ctx = serde_json::Map::new();
+                    for (i, e) in encs.iter().enumerate() {
+                        ctx.insert(format!("a{i}"), json!(e));
+                    }
+                    ctx.insert("RAND_SEED".into(), json!("I:42"));
+                    let ((q1, q2), _) = metas(pass);
+                    let case = json!({
+                        "s": "G", "kind": "filter", "name": "map", "via": name, "expr": expr, "pattern": format!("map/{}", extras.len()), "dm": format!("{q1}{q2}"),
+                        "t": {"main.html": format!("{{{{ probe({expr}) }}}}")}, "ctx": ctx, "args": encs,
+                    });
+                    let res = run_case(&case);
+                    if res.starts_with("OK") || res.starts_with("PANIC") {
+                        writeln!(out, "{}\t{}", case, res).unwrap();
+                    }
+                }
+            }
+        }
+        // a function is also called without any argument
+        if kind == "function" {
+            let case = json!({"s": "G", "kind": kind, "name": name, "expr": format!("{name}()"), "pattern": "noargs/0", "dm": "\"'",
+                "t": {"main.html": format!("{{{{ probe({name}()) }}}}")}, "ctx": {"RAND_SEED": "I:42"}, "args": []});
+            let res = run_case(&case);
+            if res.starts_with("OK") || res.starts_with("PANIC") {
+                ok += 1;
+                writeln!(out, "{}\t{}", case, res).unwrap();
+            } else {
+                *errors.entry(res).or_insert(0) += 1;
+            }
+        }
+        let summary = json!({"s": "G#", "kind": kind, "name": if kind == "test" { format!("test:{name}") } else { name.clone() }, "ok": ok, "errors": errors});
+        writeln!(out, "{}\tOK\t-\t-", summary).unwrap();
     }
 }
 
@@ -906,10 +1103,10 @@ fn gen_modes(out: &mut impl Write) {
     for dv in datas {
         let mut ctx = serde_json::Map::new();
         ctx.insert("d".into(), json!(format!("S0:{}", enc_str(dv))));
-        for (region, m) in [("false", "n"), ("\"none\"", "n"), ("\"json\"", "j"), ("true", "h"), ("\"html\"", "h")] {
+        for (region, m) in [("false", "n"), ("\"none\"", "n"), ("\"json\"", "j"), ("true", "h"), ("\"html\"", "h"), ("\"xml\"", "e"), ("none", "n"), ("\"\"", "e")] {
             let x = || E::Var("x".into());
             let mk = |name: &str, macros: Vec<MacroDef>, body: Vec<S>, extends: Option<&str>| Tmpl {
-                name: name.into(), extends: extends.map(|s| s.to_string()), imports: vec![], macros, body,
+                name: name.into(), extends: extends.map(|s| s.to_string()), imports: vec![], pre: vec![], macros, body,
             };
             let mac = |name: &str, params: Vec<&str>, body: Vec<S>, uc: bool| MacroDef {
                 name: name.into(), params: params.into_iter().map(|s| s.to_string()).collect(), body, uses_caller: uc,
@@ -938,6 +1135,9 @@ fn gen_modes(out: &mut impl Write) {
             }
             // the recursive loop call needs `namespace` to carry the captured value out of the loop:
             // sent as a hand-written step program
+            if m == "e" {
+                continue;
+            }
             let mut t = BTreeMap::new();
             t.insert("main.html".to_string(), format!("{{% set ns = namespace(v=\"\") %}}{{% autoescape {region} %}}{{% for n in [[d]] recursive %}}{{% if n is string %}}{{{{ n }}}}{{% else %}}{{% set ns.v = loop(n) %}}{{% endif %}}{{% endfor %}}{{% endautoescape %}}{{{{ ns.v }}}}"));
             let case = json!({"s": "M", "kind": "looprec", "site": "end_capture", "region": region, "mode": m, "t": t, "ctx": ctx,
@@ -1025,14 +1225,14 @@ fn gen_kinds(out: &mut impl Write) {
                 if probe == "format-safe" && kind.starts_with("float") {
                     continue; // `%s` of a float goes through the float formatter, which is not modelled
                 }
-                let inc = Tmpl { name: "inc.html".into(), extends: None, imports: vec![], macros: vec![], body: vec![S::Text("i:".into()), S::Emit(k())] };
+                let inc = Tmpl { name: "inc.html".into(), body: vec![S::Text("i:".into()), S::Emit(k())], ..Default::default() };
                 let mut ts = vec![inc];
                 let main = if probe == "block-super" {
-                    ts.push(Tmpl { name: "base.xml".into(), extends: None, imports: vec![], macros: vec![], body: vec![S::Block("b".into(), vec![S::Emit(k())])] });
-                    Tmpl { name: "main.html".into(), extends: Some("base.xml".into()), imports: vec![], macros: macros.clone(),
+                    ts.push(Tmpl { name: "base.xml".into(), body: vec![S::Block("b".into(), vec![S::Emit(k())])], ..Default::default() });
+                    Tmpl { name: "main.html".into(), extends: Some("base.xml".into()), imports: vec![], pre: vec![], macros: macros.clone(),
                         body: vec![S::Block("b".into(), vec![S::Emit(E::Super), S::Text("+".into()), S::Emit(E::Bin("~", Box::new(E::Super), Box::new(k())))])] }
                 } else {
-                    Tmpl { name: "main.html".into(), extends: None, imports: vec![], macros: macros.clone(), body }
+                    Tmpl { name: "main.html".into(), extends: None, imports: vec![], pre: vec![], macros: macros.clone(), body }
                 };
                 ts.push(main);
                 let case = prog_case("K", &ts, "main.html", &ctx, true, json!({"kind": kind, "probe": probe, "feats": [kind, probe]}));
@@ -1052,12 +1252,203 @@ fn gen_names(out: &mut impl Write) {
         ("a.json", "j"), ("a.yaml.j2", "j"), ("a.HTML", "n"), ("a.xhtml", "n"), ("a.j2.html.j2", "h"), ("a.html.j2.jinja", "n"),
     ] {
         let dv = || E::Var("d".into());
-        let t = Tmpl { name: name.into(), extends: None, imports: vec![], macros: vec![], body: vec![
+        let t = Tmpl { name: name.into(), extends: None, imports: vec![], pre: vec![], macros: vec![], body: vec![
             S::SetBlock("x".into(), vec![S::Emit(dv())], None), S::Emit(E::Var("x".into())),
             S::Emit(E::Filt("escape".into(), "e".into(), vec![dv()], vec![])),
         ] };
         let case = prog_case("N", &[t], name, &ctx, false, json!({"name": name, "mode": m}));
         emit_case(out, case);
+    }
+}
+
+
+// ------------------------------------------------------------------------------- stream T / B / E / R
+fn mode_char(name: &str, cfg: &Cfg) -> char {
+    if let Some((_, m)) = cfg.modes.iter().find(|(n, _)| n == name) {
+        return *m;
+    }
+    match minijinja::default_auto_escape_callback(name) {
+        minijinja::AutoEscape::Html => 'h',
+        minijinja::AutoEscape::None => 'n',
+        minijinja::AutoEscape::Json => 'j',
+        _ => '?',
+    }
+}
+
+/// stream T: every way a value, a macro or output crosses from one template into another, for every
+/// combination of the modes the two template names select (default callback and a custom one)
+fn gen_cross(out: &mut impl Write) {
+    let datas = ["<α>\"β'&", "a'b"];
+    let dv = || E::Var("d".into());
+    let mac = |name: &str, params: Vec<&str>, body: Vec<S>, uc: bool| MacroDef {
+        name: name.into(), params: params.into_iter().map(|s| s.to_string()).collect(), body, uses_caller: uc,
+    };
+    let cfgs: Vec<(&str, Cfg)> = vec![
+        ("default-callback", Cfg::default()),
+        ("custom-callback", Cfg { modes: vec![("l.txt".into(), 'h'), ("l.html".into(), 'n'), ("m.txt".into(), 'h'), ("m.html".into(), 'h')], fmt_none_undef: false }),
+    ];
+    for data in datas {
+        let mut ctx = serde_json::Map::new();
+        ctx.insert("d".into(), json!(format!("S0:{}", enc_str(data))));
+        for (cfgname, cfg) in &cfgs {
+            for lib in ["l.html", "l.txt", "l.json", "sub/l.xml.j2"] {
+                for main in ["m.html", "m.txt", "m.xml"] {
+                    let lm = mode_char(lib, cfg);
+                    let mm = mode_char(main, cfg);
+                    let libt = |pre: Vec<S>, macros: Vec<MacroDef>, body: Vec<S>| Tmpl { name: lib.into(), pre, macros, body, ..Default::default() };
+                    let maint = |imports: Vec<Imp>, extends: Option<&str>, body: Vec<S>| Tmpl {
+                        name: main.into(), extends: extends.map(|s| s.to_string()), imports, body, ..Default::default() };
+                    let from = |ns: Vec<(&str, &str)>| Imp::From(lib.into(), ns.into_iter().map(|(a, b)| (a.to_string(), b.to_string())).collect());
+                    let module = || Imp::Mod(lib.into(), "L".into());
+                    let x = || E::Var("x".into());
+                    let capx = || S::SetBlock("x".into(), vec![S::Text("(".into()), S::Emit(dv()), S::Text(")".into())], None);
+                    let show = |e: E| vec![S::Emit(e.clone()), S::Text("|".into()), S::Emit(E::Bin("~", Box::new(e.clone()), Box::new(E::Lit("".into())))), S::Text("|".into()),
+                        S::Emit(E::Filt("upper".into(), "upper".into(), vec![e.clone()], vec![])), S::Text("|".into()), S::Emit(E::Filt("escape".into(), "e".into(), vec![e], vec![]))];
+                    // (kind, site of the mark if the value crossing over is a capture, templates)
+                    let kinds: Vec<(&str, &str, Vec<Tmpl>)> = vec![
+                        ("from-import-variable", "end_capture", vec![libt(vec![capx()], vec![], vec![]), maint(vec![from(vec![("x", "x")])], None, show(x()))]),
+                        ("from-import-variable-alias", "end_capture", vec![libt(vec![capx()], vec![], vec![]), maint(vec![from(vec![("x", "y")])], None, show(E::Var("y".into())))]),
+                        ("module-variable", "end_capture", vec![libt(vec![capx()], vec![], vec![]), maint(vec![module()], None, show(E::ModVar("L".into(), "x".into())))]),
+                        ("module-printed", "-", vec![libt(vec![], vec![], vec![S::Text("[".into()), S::Emit(dv()), S::Text("]".into())]), maint(vec![module()], None, show(E::Var("L".into())))]),
+                        ("from-import-macro", "-", vec![libt(vec![], vec![mac("mm", vec!["a"], vec![S::Text("<".replace('<', "(")), S::Emit(E::Var("a".into())), S::Text(")".into())], false)], vec![]),
+                            maint(vec![from(vec![("mm", "mk")])], None, show(E::Call("mk".into(), vec![dv()])))]),
+                        ("module-macro", "-", vec![libt(vec![], vec![mac("mm", vec!["a"], vec![S::Emit(E::Var("a".into()))], false)], vec![]),
+                            maint(vec![module()], None, show(E::ModCall("L".into(), "mm".into(), vec![dv()])))]),
+                        ("macro-result-stored", "-", vec![libt(vec![], vec![mac("mm", vec!["a"], vec![S::Emit(E::Var("a".into()))], false)], vec![]),
+                            maint(vec![from(vec![("mm", "mm")])], None, { let mut b = vec![S::Set("y".into(), E::Call("mm".into(), vec![dv()]))]; b.extend(show(E::Var("y".into()))); b })]),
+                        ("macro-closure-variable", "end_capture", vec![libt(vec![capx()], vec![mac("mm", vec![], vec![S::Emit(x())], false)], vec![]),
+                            maint(vec![from(vec![("mm", "mm")])], None, show(E::Call("mm".into(), vec![])))]),
+                        ("call-block-imported-macro", "-", vec![libt(vec![], vec![mac("mc", vec![], vec![S::Text("[".into()), S::Emit(E::Caller), S::Text("]".into())], true)], vec![]),
+                            maint(vec![from(vec![("mc", "mc")])], None, vec![S::CallBlock("mc".into(), vec![], vec![S::Emit(dv())]),
+                                S::SetBlock("y".into(), vec![S::CallBlock("mc".into(), vec![], vec![S::Emit(dv())])], None), S::Emit(E::Var("y".into()))])]),
+                        ("include", "-", vec![libt(vec![], vec![], vec![S::Emit(dv())]), maint(vec![], None, vec![S::Include(lib.into())])]),
+                        ("include-captured", "-", vec![libt(vec![], vec![], vec![S::Emit(dv())]),
+                            maint(vec![], None, { let mut b = vec![S::SetBlock("y".into(), vec![S::Include(lib.into())], None)]; b.extend(show(E::Var("y".into()))); b })]),
+                        ("include-sees-capture", "-", vec![libt(vec![], vec![], vec![S::Emit(x()), S::Emit(E::Bin("~", Box::new(x()), Box::new(dv())))]),
+                            maint(vec![], None, vec![capx(), S::Include(lib.into())])]),
+                        ("extends-block-super", "-", vec![libt(vec![], vec![], vec![S::Text("A".into()), S::Block("b".into(), vec![S::Emit(dv())]), S::Text("Z".into())]),
+                            maint(vec![], Some(lib), vec![S::Block("b".into(), vec![S::Emit(E::Super), S::Text("+".into()), S::Set("y".into(), E::Super), S::Emit(E::Var("y".into())), S::Emit(dv())])])]),
+                        ("extends-child-variable", "-", vec![libt(vec![], vec![], vec![S::Block("b".into(), vec![S::Emit(x())])]),
+                            Tmpl { name: main.into(), extends: Some(lib.into()), pre: vec![capx(), S::Emit(dv())], ..Default::default() }]),
+                    ];
+                    for (kind, site, ts) in kinds {
+                        let case = prog_case_cfg("T", &ts, main, &ctx, false, cfg, json!({"kind": kind, "site": site, "lib": lib, "libmode": lm.to_string(), "mainmode": mm.to_string(), "callback": cfgname}));
+                        emit_case(out, case);
+                    }
+                }
+            }
+        }
+    }
+}
+
+/// stream B: `render_captured` + `State::render_block` (a block of the template itself, an overridden
+/// block with `super()`, a block that prints a variable set outside the blocks)
+fn gen_blocks(out: &mut impl Write) {
+    let datas = ["<α>\"β'&", "x'y"];
+    let dv = || E::Var("d".into());
+    for data in datas {
+        let mut ctx = serde_json::Map::new();
+        ctx.insert("d".into(), json!(format!("S0:{}", enc_str(data))));
+        for main in ["m.html", "m.txt", "m.xml.j2"] {
+            for base in ["b.html", "b.txt"] {
+                let cap = S::SetBlock("x".into(), vec![S::Emit(dv())], None);
+                let ts_plain = vec![Tmpl { name: main.into(), pre: vec![cap.clone()], body: vec![S::Text("T".into()),
+                    S::Block("hi".into(), vec![S::Text("[".into()), S::Emit(dv()), S::Emit(E::Var("x".into())), S::Emit(E::Bin("~", Box::new(E::Var("x".into())), Box::new(dv()))), S::Text("]".into())])], ..Default::default() }];
+                let ts_inh = vec![
+                    Tmpl { name: base.into(), body: vec![S::Text("B".into()), S::Block("hi".into(), vec![S::Text("(".into()), S::Emit(dv()), S::Text(")".into())]), S::Block("other".into(), vec![S::Emit(dv())])], ..Default::default() },
+                    Tmpl { name: main.into(), extends: Some(base.into()), pre: vec![cap.clone()], body: vec![S::Block("hi".into(), vec![S::Emit(E::Super), S::Emit(E::Var("x".into())), S::Set("y".into(), E::Super), S::Emit(E::Var("y".into()))])], ..Default::default() },
+                ];
+                for (kind, ts, block) in [("own-block", &ts_plain, "hi"), ("overridden-block-super", &ts_inh, "hi"), ("inherited-block", &ts_inh, "other"), ("missing-block", &ts_plain, "nope")] {
+                    let case = prog_case("B", ts, main, &ctx, false, json!({"kind": kind, "block": block, "mainmode": mode_char(main, &Cfg::default()).to_string()}));
+                    emit_case(out, case);
+                }
+            }
+        }
+    }
+}
+
+/// stream E: `Environment::compile_expression` + `Expression::eval` (mode None, no output): the value
+/// handed back to the host, with its Safe bit
+fn gen_exprs(out: &mut impl Write) {
+    let mut g = Gen { rng: Rng::new(seed_from_env() ^ 0xe4), nvar: 0, feats: vec![] };
+    let mut exprs: Vec<E> = vec![
+        E::Var("d0".into()),
+        E::Filt("escape".into(), "e".into(), vec![E::Var("d0".into())], vec![]),
+        E::Filt("upper".into(), "upper".into(), vec![E::Filt("escape".into(), "e".into(), vec![E::Var("d0".into())], vec![])], vec![]),
+        E::Bin("~", Box::new(E::Filt("escape".into(), "e".into(), vec![E::Var("d0".into())], vec![])), Box::new(E::Var("d1".into()))),
+        E::Filt("replace".into(), "replace({1}, {2})".into(), vec![E::Filt("escape".into(), "e".into(), vec![E::Var("d0".into())], vec![]), E::Lit("α".into()), E::Var("d1".into())], vec![]),
+        E::Filt("join".into(), "join({1})".into(), vec![E::List(vec![E::Filt("escape".into(), "e".into(), vec![E::Var("d0".into())], vec![]), E::Var("d1".into())]), E::Var("d2".into())], vec![]),
+        E::Filt("format".into(), "format({1})".into(), vec![E::Filt("escape".into(), "e".into(), vec![E::Lit("<%s>".into())], vec![]), E::Var("d1".into())], vec![]),
+        E::List(vec![E::Var("d0".into()), E::Filt("escape".into(), "e".into(), vec![E::Var("d1".into())], vec![])]),
+    ];
+    let sc = Scope { strs: vec!["d0".into(), "d1".into(), "d2".into()], lists: vec!["xs".into(), "ys".into()], flags: vec!["f0".into(), "f1".into()],
+        in_loop: false, caller: false, sup: false, macros: vec![], modvars: vec![], modprint: vec![], includes: vec![], allow_include: false };
+    for _ in 0..150 {
+        exprs.push(if g.rng.chance(1, 4) { g.list_expr(3, &sc) } else { g.str_expr(4, &sc) });
+    }
+    for (i, e) in exprs.iter().enumerate() {
+        let mut ctx = serde_json::Map::new();
+        for k in 0..3 {
+            ctx.insert(format!("d{k}"), json!(format!("S0:{}", enc_str(&g.data(6)))));
+        }
+        ctx.insert("xs".into(), json!(format!("L(S0:{};S0:{})", enc_str(&g.data(4)), enc_str(&g.data(3)))));
+        ctx.insert("ys".into(), json!("L()"));
+        ctx.insert("f0".into(), json!("B:1"));
+        ctx.insert("f1".into(), json!("B:0"));
+        for (k, v) in [("kb", format!("Y:{}", enc_bytes(&[0xFF, b'<', b'a']))), ("kv", format!("Y:{}", enc_bytes("<α'".as_bytes()))), ("ko", format!("O:{}", enc_str("<o>'"))),
+            ("kf", format!("F:{}", enc_str("1.5"))), ("ki", "I:170141183460469231731687303715884105727".to_string())] {
+            ctx.insert(k.into(), json!(v));
+        }
+        let case = json!({"s": "E", "idx": i, "exprsrc": expr_src(e), "exprsx": expr_sx(e), "ctxsx": ctx_sx(&ctx), "ctx": ctx, "strict": 1});
+        emit_case(out, case);
+    }
+}
+
+/// stream R: `Environment::set_formatter` (the documented wrapper that prints `none` as nothing) on every
+/// printing path, and `AutoEscape::Custom` from a custom callback (the default formatter refuses to write)
+fn gen_formatter(out: &mut impl Write) {
+    let datas = ["<α>\"β'&", "'"];
+    let dv = || E::Var("d".into());
+    let nv = || E::Var("n".into());
+    for data in datas {
+        let mut ctx = serde_json::Map::new();
+        ctx.insert("d".into(), json!(format!("S0:{}", enc_str(data))));
+        ctx.insert("n".into(), json!("N"));
+        ctx.insert("l".into(), json!(format!("L(N;S0:{})", enc_str(data))));
+        let mac = MacroDef { name: "mm".into(), params: vec!["a".into()], body: vec![S::Text("(".into()), S::Emit(E::Var("a".into())), S::Text(")".into())], uses_caller: false };
+        let bodies: Vec<(&str, Vec<S>)> = vec![
+            ("print", vec![S::Emit(dv()), S::Text("|".into()), S::Emit(nv()), S::Text("|".into()), S::Emit(E::NoneLit), S::Text("|".into()), S::Emit(E::Var("undefined_name".into()))]),
+            ("capture", vec![S::SetBlock("x".into(), vec![S::Emit(nv()), S::Emit(dv())], None), S::Emit(E::Var("x".into())), S::Emit(E::Bin("~", Box::new(E::Var("x".into())), Box::new(dv())))]),
+            ("macro", vec![S::Emit(E::Call("mm".into(), vec![nv()])), S::Emit(E::Call("mm".into(), vec![dv()]))]),
+            ("container", vec![S::Emit(E::Var("l".into())), S::Emit(E::List(vec![nv(), dv()]))]),
+            ("filter-block", vec![S::FilterBlock("upper".into(), "upper".into(), vec![], vec![S::Emit(nv()), S::Emit(dv())])]),
+            ("escape-filter", vec![S::Emit(E::Filt("escape".into(), "e".into(), vec![nv()], vec![])), S::Emit(E::Filt("escape".into(), "e".into(), vec![dv()], vec![]))]),
+            ("autoescape-none-capture", vec![S::Auto("false", vec![S::SetBlock("x".into(), vec![S::Emit(nv()), S::Emit(dv())], None)]), S::Emit(E::Var("x".into()))]),
+        ];
+        for (kind, body) in bodies {
+            for main in ["f.html", "f.txt"] {
+                let t = Tmpl { name: main.into(), macros: vec![mac.clone()], body: body.clone(), ..Default::default() };
+                let cfg = Cfg { modes: vec![], fmt_none_undef: true };
+                let case = prog_case_cfg("R", &[t], main, &ctx, false, &cfg, json!({"kind": kind, "mainmode": mode_char(main, &Cfg::default()).to_string()}));
+                emit_case(out, case);
+            }
+        }
+    }
+    // AutoEscape::Custom: nothing can be written by the default formatter
+    for src in ["{{ d }}", "{{ 'a' }}", "x{% set y %}{{ d }}{% endset %}", "{{ d|e }}", "{% autoescape 'html' %}{{ d }}{% endautoescape %}"] {
+        let mut env = mk_env();
+        env.set_auto_escape_callback(|_| minijinja::AutoEscape::Custom("latex"));
+        env.add_template_owned("c.tex".to_string(), src.to_string()).unwrap();
+        let mut c = BTreeMap::new();
+        c.insert("d", Value::from("<α>\"β'&"));
+        let r = guarded(|| env.get_template("c.tex").unwrap().render(Value::from(c.clone())).map_err(|e| error_kind_name(&e)));
+        let res = match r {
+            Err(p) => format!("PANIC:{}", enc_str(&p)),
+            Ok(Ok(o)) => format!("OK\t-\t{}", enc_str(&o)),
+            Ok(Err(e)) => format!("ERR:{e}"),
+        };
+        let case = json!({"s": "R", "kind": "custom-mode", "src": src});
+        writeln!(out, "{}\t{}", case, res).unwrap();
     }
 }
 
@@ -1076,6 +1467,10 @@ enum E {
     Slice(Box<E>, usize, usize),
     List(Vec<E>),
     Call(String, Vec<E>),
+    /// `alias.m(args)` / `alias.x` on an imported module
+    ModCall(String, String, Vec<E>),
+    ModVar(String, String),
+    NoneLit,
     Caller,
     Super,
     LoopIndex,
@@ -1113,13 +1508,29 @@ struct MacroDef {
     uses_caller: bool,
 }
 
+/// `{% import "t" as alias %}` / `{% from "t" import name as alias, … %}`
+#[derive(Clone, Debug)]
+enum Imp {
+    Mod(String, String),
+    From(String, Vec<(String, String)>),
+}
+
+/// source order: extends, imports, `pre` (top-level statements before the macros), macros, body
 #[derive(Clone, Debug, Default)]
 struct Tmpl {
     name: String,
     extends: Option<String>,
-    imports: Vec<(String, Vec<String>)>,
+    imports: Vec<Imp>,
+    pre: Vec<S>,
     macros: Vec<MacroDef>,
     body: Vec<S>,
+}
+
+/// environment configuration of a program: custom auto-escape callback (names it decides), custom formatter
+#[derive(Clone, Debug, Default)]
+struct Cfg {
+    modes: Vec<(String, char)>,
+    fmt_none_undef: bool,
 }
 
 fn lit_src(s: &str) -> String {
@@ -1154,6 +1565,9 @@ fn expr_src(e: &E) -> String {
         E::Slice(a, x, y) => format!("({})[{}:{}]", expr_src(a), x, y),
         E::List(xs) => format!("[{}]", xs.iter().map(expr_src).collect::<Vec<_>>().join(", ")),
         E::Call(m, args) => format!("{}({})", m, args.iter().map(expr_src).collect::<Vec<_>>().join(", ")),
+        E::ModCall(a, m, args) => format!("{}.{}({})", a, m, args.iter().map(expr_src).collect::<Vec<_>>().join(", ")),
+        E::ModVar(a, x) => format!("{}.{}", a, x),
+        E::NoneLit => "none".into(),
         E::Caller => "caller()".into(),
         E::Super => "super()".into(),
         E::LoopIndex => "loop.index".into(),
@@ -1233,6 +1647,13 @@ fn expr_sx(e: &E) -> String {
             items.extend(args.iter().map(expr_sx));
             sx_list("call", items)
         }
+        E::ModCall(a, m, args) => {
+            let mut items = vec![enc_str(a), enc_str(m)];
+            items.extend(args.iter().map(expr_sx));
+            sx_list("modcall", items)
+        }
+        E::ModVar(a, x) => format!("(modvar {} {})", enc_str(a), enc_str(x)),
+        E::NoneLit => "(none)".into(),
         E::Caller => "(caller)".into(),
         E::Super => "(super)".into(),
         E::LoopIndex => "(loopindex)".into(),
@@ -1290,12 +1711,23 @@ fn tmpl_sx(t: &Tmpl) -> String {
         items.extend(stmts_sx(&m.body));
         sx_list("macro", items)
     }).collect();
-    let mut items = vec![enc_str(&t.name), t.extends.as_ref().map(|p| enc_str(p)).unwrap_or("_".into()), sx_list("macros", macros)];
+    let imports: Vec<String> = t.imports.iter().filter_map(|i| match i {
+        Imp::Mod(tn, a) => Some(format!("(mod {} {})", enc_str(tn), enc_str(a))),
+        Imp::From(_, ns) if ns.is_empty() => None,
+        Imp::From(tn, ns) => {
+            let mut items = vec![enc_str(tn)];
+            items.extend(ns.iter().map(|(n, a)| format!("({} {})", enc_str(n), enc_str(a))));
+            Some(sx_list("from", items))
+        }
+    }).collect();
+    let mut items = vec![enc_str(&t.name), t.extends.as_ref().map(|p| enc_str(p)).unwrap_or("_".into()),
+        sx_list("imports", imports), sx_list("pre", stmts_sx(&t.pre)), sx_list("macros", macros)];
     items.extend(stmts_sx(&t.body));
     sx_list("tmpl", items)
 }
-fn prog_sx(templates: &[Tmpl], main: &str) -> String {
-    let mut items = vec![enc_str(main)];
+fn prog_sx(templates: &[Tmpl], main: &str, cfg: &Cfg) -> String {
+    let modes: Vec<String> = cfg.modes.iter().map(|(n, m)| format!("({} {})", enc_str(n), m)).collect();
+    let mut items = vec![enc_str(main), sx_list("modes", modes), format!("(fmt {})", if cfg.fmt_none_undef { "noneundef" } else { "default" })];
     items.extend(templates.iter().map(tmpl_sx));
     sx_list("prog", items)
 }
@@ -1354,11 +1786,18 @@ fn ctx_sx(ctx: &serde_json::Map<String, serde_json::Value>) -> String {
 
 fn header_src(t: &Tmpl) -> String {
     let mut s = String::new();
-    for (from, names) in &t.imports {
-        if !names.is_empty() {
-            s.push_str(&format!("{{% from \"{}\" import {} %}}", from, names.join(", ")));
+    for imp in &t.imports {
+        match imp {
+            Imp::Mod(from, alias) => s.push_str(&format!("{{% import \"{}\" as {} %}}", from, alias)),
+            Imp::From(from, names) => {
+                if !names.is_empty() {
+                    let ns: Vec<String> = names.iter().map(|(n, a)| if n == a { n.clone() } else { format!("{n} as {a}") }).collect();
+                    s.push_str(&format!("{{% from \"{}\" import {} %}}", from, ns.join(", ")));
+                }
+            }
         }
     }
+    s.push_str(&stmts_src(&t.pre));
     for m in &t.macros {
         s.push_str(&format!("{{% macro {}({}) %}}{}{{% endmacro %}}", m.name, m.params.join(", "), stmts_src(&m.body)));
     }
@@ -1390,6 +1829,7 @@ struct Program {
     tree: Vec<Tree>,
     /// context values that are not strings: name → encoded value (bytes, object, float, 128-bit integer)
     kinds: Vec<(String, String)>,
+    cfg: Cfg,
 }
 
 // ---- generator
@@ -1401,7 +1841,12 @@ struct Scope {
     in_loop: bool,
     caller: bool,
     sup: bool,
-    macros: Vec<(String, usize, bool)>,
+    /// callable macros: name to call it by, number of parameters, uses caller(), module alias (`L.name(…)`)
+    macros: Vec<(String, usize, bool, Option<String>)>,
+    /// variables of imported modules: (alias, name)
+    modvars: Vec<(String, String)>,
+    /// module aliases that may be printed as a whole (`{{ L }}`)
+    modprint: Vec<String>,
     includes: Vec<String>,
     allow_include: bool,
 }
@@ -1458,6 +1903,11 @@ impl Gen {
             return E::Filt("string".into(), "string".into(), vec![self.kind_var()], vec![]);
         }
         if depth == 0 || self.rng.chance(1, 4) {
+            if !sc.modvars.is_empty() && self.rng.chance(1, 5) {
+                self.feat("module-variable");
+                let (a, x) = self.rng.pick(&sc.modvars).clone();
+                return E::ModVar(a, x);
+            }
             return if !sc.strs.is_empty() && self.rng.chance(3, 4) { E::Var(self.rng.pick(&sc.strs).clone()) } else { E::Lit(self.data(5)) };
         }
         let d = depth - 1;
@@ -1537,8 +1987,12 @@ impl Gen {
                 let ms: Vec<_> = sc.macros.iter().filter(|m| !m.2).cloned().collect();
                 if ms.is_empty() { return self.str_expr(d, sc); }
                 self.feat("macro-call");
-                let (name, np, _) = self.rng.pick(&ms).clone();
-                E::Call(name, (0..np).map(|_| self.str_expr(d, sc)).collect())
+                let (name, np, _, alias) = self.rng.pick(&ms).clone();
+                let args = (0..np).map(|_| self.str_expr(d, sc)).collect();
+                match alias {
+                    Some(a) => { self.feat("module-macro-call"); E::ModCall(a, name, args) }
+                    None => E::Call(name, args),
+                }
             }
             16 => if sc.caller { self.feat("caller()"); E::Caller } else { self.str_expr(d, sc) },
             17 => if sc.sup { self.feat("super()"); E::Super } else { self.str_expr(d, sc) },
@@ -1665,8 +2119,9 @@ impl Gen {
         let d = depth.saturating_sub(1);
         match pick {
             0 | 1 => vec![S::Text(self.text())],
+            2 if !sc.modprint.is_empty() && self.rng.chance(1, 3) => vec![S::Emit(E::Var(sc.modprint[0].clone()))],
             2..=5 => vec![S::Emit(self.str_expr(3, sc))],
-            6 => vec![S::Emit(self.kind_expr(sc))],
+            6 => if self.rng.chance(1, 6) { self.feat("none-literal"); vec![S::Emit(E::NoneLit)] } else { vec![S::Emit(self.kind_expr(sc))] },
             7 => { let v = self.fresh("v"); let e = self.str_expr(3, sc); sc.strs.push(v.clone()); vec![S::Set(v, e)] }
             8 | 9 | 10 => {
                 self.feat("set-block");
@@ -1720,10 +2175,10 @@ impl Gen {
                 vec![S::With(v, e, self.block(n, d, &mut inner))]
             }
             19 | 20 | 21 => {
-                let ms: Vec<_> = sc.macros.iter().filter(|m| m.2).cloned().collect();
+                let ms: Vec<_> = sc.macros.iter().filter(|m| m.2 && m.3.is_none()).cloned().collect();
                 if ms.is_empty() { return vec![S::Emit(self.str_expr(3, sc))]; }
                 self.feat("call-block");
-                let (name, np, _) = self.rng.pick(&ms).clone();
+                let (name, np, _, _) = self.rng.pick(&ms).clone();
                 let args = (0..np).map(|_| self.str_expr(2, sc)).collect();
                 let mut inner = sc.clone();
                 inner.caller = false;
@@ -1738,6 +2193,31 @@ impl Gen {
                 vec![S::Include(self.rng.pick(&sc.includes).clone())]
             }
             24 => {
+                if self.rng.chance(1, 3) {
+                    // `autoescape false` / `"none"` around statements that write nothing themselves: what they
+                    // capture is unmarked and escaped when it is printed under Html afterwards
+                    self.feat("autoescape-off-silent");
+                    let a = if self.rng.chance(1, 2) { "false" } else { "\"none\"" };
+                    let mut body = vec![];
+                    let n = 1 + self.rng.below(2);
+                    for _ in 0..n {
+                        let v = self.fresh("o");
+                        if self.rng.chance(1, 2) {
+                            let mut inner = sc.clone();
+                            let b = self.block(2, 0, &mut inner);
+                            body.push(S::SetBlock(v.clone(), b, None));
+                        } else {
+                            body.push(S::Set(v.clone(), self.str_expr(2, sc)));
+                        }
+                        sc.strs.push(v);
+                    }
+                    if self.rng.chance(1, 25) {
+                        // … and, rarely, one that does write: the program leaves the fragment
+                        self.feat("autoescape-off-writes");
+                        body.push(S::Emit(self.str_expr(1, sc)));
+                    }
+                    return vec![S::Auto(a, body)];
+                }
                 self.feat("autoescape-true");
                 let a = if self.rng.chance(1, 2) { "true" } else { "\"html\"" };
                 let mut inner = sc.clone();
@@ -1788,7 +2268,9 @@ impl Gen {
         let np = self.rng.below(3) as usize;
         let params: Vec<String> = (0..np).map(|_| self.fresh("p")).collect();
         let mut inner = sc.clone();
-        inner.strs = sc.strs.iter().filter(|s| s.starts_with('d')).cloned().collect();
+        inner.strs = sc.strs.iter().filter(|s| s.starts_with('d') || s.starts_with('t')).cloned().collect();
+        inner.modvars = vec![];
+        inner.modprint = vec![];
         inner.strs.extend(params.iter().cloned());
         inner.in_loop = false;
         inner.sup = false;
@@ -1838,38 +2320,114 @@ fn gen_program(seed: u64, idx: u64) -> (Program, Vec<&'static str>, Vec<S>, bool
     let base_scope = Scope {
         strs: strs.iter().map(|s| s.0.clone()).collect(), lists: lists.iter().map(|s| s.0.clone()).collect(),
         flags: flags.iter().map(|s| s.0.clone()).collect(), in_loop: false, caller: false, sup: false,
-        macros: vec![], includes: vec![], allow_include: false,
+        macros: vec![], modvars: vec![], modprint: vec![], includes: vec![], allow_include: false,
     };
     let mut templates = vec![];
-    // library of macros
-    let mut lib = Tmpl { name: "lib.html".into(), ..Default::default() };
-    let mut sc = base_scope.clone();
+    let mut cfg = Cfg::default();
+    // ---- library of macros and top-level variables; its name selects ITS auto-escape mode, the macros run
+    //      in the mode of whoever calls them, the variables are computed in the library's mode
+    let lib_name = g.rng.pick(&["lib.html", "lib.html", "lib.html", "lib.txt", "macros/lib.xml", "lib.md", "lib.html.j2", "lib.txt.jinja"]).to_string();
+    if !lib_name.contains("html") && !lib_name.contains("xml") { g.feat("library-with-other-mode"); }
+    let mut lib = Tmpl { name: lib_name.clone(), ..Default::default() };
+    let mut lsc = base_scope.clone();
+    let npre = g.rng.below(3);
+    for _ in 0..npre {
+        g.feat("library-variable");
+        let v = g.fresh("t");
+        if g.rng.chance(1, 2) {
+            let mut inner = lsc.clone();
+            let nb = 1 + g.rng.below(2) as usize;
+            let b = g.block(nb, 0, &mut inner);
+            lib.pre.push(S::SetBlock(v.clone(), b, None));
+        } else {
+            lib.pre.push(S::Set(v.clone(), g.str_expr(2, &lsc)));
+        }
+        lsc.strs.push(v);
+    }
+    let lib_vars: Vec<String> = lsc.strs.iter().filter(|s| s.starts_with('t')).cloned().collect();
     let nlib = g.rng.below(3);
     for i in 0..nlib {
         let uc = i == 1 || g.rng.chance(1, 4);
-        let m = g.macro_def(&sc, uc);
-        sc.macros.push((m.name.clone(), m.params.len(), m.uses_caller));
+        let m = g.macro_def(&lsc, uc);
+        lsc.macros.push((m.name.clone(), m.params.len(), m.uses_caller, None));
         lib.macros.push(m);
     }
+    if g.rng.chance(1, 4) {
+        // whatever the library writes at its top level ends up in the module object (or is discarded)
+        g.feat("library-top-level-output");
+        lib.body = g.block(1, 0, &mut lsc.clone());
+    }
     let lib_names: Vec<String> = lib.macros.iter().map(|m| m.name.clone()).collect();
-    let imports = vec![("lib.html".to_string(), lib_names.clone())];
+    let lib_macros = lsc.macros.clone();
     templates.push(lib);
-    // included template
-    let inc_name = if g.rng.chance(1, 2) { "inc.html" } else { "parts/inc.xml" };
+    // ---- how the other templates import it
+    let mut sc = base_scope.clone();
+    let imports: Vec<Imp> = if g.rng.chance(2, 5) && !(lib_names.is_empty() && lib_vars.is_empty()) {
+        g.feat("import-as-module");
+        // the module for plain macros and variables, `from … import` for the macros used by call blocks
+        let from: Vec<(String, String)> = lib_macros.iter().filter(|m| m.2).map(|m| (m.0.clone(), m.0.clone())).collect();
+        for m in &lib_macros {
+            sc.macros.push((m.0.clone(), m.1, m.2, if m.2 { None } else { Some("L".to_string()) }));
+        }
+        for v in &lib_vars {
+            sc.modvars.push(("L".to_string(), v.clone()));
+        }
+        if g.rng.chance(1, 3) {
+            g.feat("module-printed");
+            sc.modprint.push("L".to_string());
+        }
+        vec![Imp::Mod(lib_name.clone(), "L".into()), Imp::From(lib_name.clone(), from)]
+    } else {
+        let mut from = vec![];
+        for m in &lib_macros {
+            let alias = if g.rng.chance(1, 3) { g.feat("import-alias"); format!("{}a", m.0) } else { m.0.clone() };
+            sc.macros.push((alias.clone(), m.1, m.2, None));
+            from.push((m.0.clone(), alias));
+        }
+        for v in &lib_vars {
+            g.feat("imported-variable");
+            let alias = if g.rng.chance(1, 3) { format!("{v}a") } else { v.clone() };
+            sc.strs.push(alias.clone());
+            from.push((v.clone(), alias));
+        }
+        vec![Imp::From(lib_name.clone(), from)]
+    };
+    // ---- included template
+    let inc_name = *g.rng.pick(&["inc.html", "parts/inc.xml", "inc.html", "parts/inc.xml", "inc.htm", "inc.txt"]);
     let mut inc = Tmpl { name: inc_name.into(), imports: imports.clone(), ..Default::default() };
     let mut isc = sc.clone();
     let n = 1 + g.rng.below(3) as usize;
     inc.body = g.block(n, 1, &mut isc);
     templates.push(inc);
     sc.includes.push(inc_name.to_string());
-    // main
-    let main_name = g.rng.pick(&["main.html", "main.xml", "page.htm", "main.html.j2", "sub/main.xml.jinja"]).to_string();
+    // ---- main
+    let main_name = g.rng.pick(&["main.html", "main.xml", "page.htm", "main.html.j2", "sub/main.xml.jinja", "main.html", "main.xml", "page.tpl", "main.txt"]).to_string();
+    if g.rng.chance(1, 8) || main_name == "page.tpl" {
+        // `Environment::set_auto_escape_callback`: a custom callback decides some names
+        g.feat("custom-auto-escape-callback");
+        if main_name == "page.tpl" || main_name == "main.txt" {
+            cfg.modes.push((main_name.clone(), 'h'));
+        }
+        if g.rng.chance(1, 2) {
+            cfg.modes.push((lib_name.clone(), *g.rng.pick(&['h', 'n'])));
+        }
+        if inc_name == "inc.txt" {
+            cfg.modes.push((inc_name.to_string(), 'h'));
+        }
+        if cfg.modes.is_empty() {
+            cfg.modes.push(("unused.txt".into(), 'h'));
+        }
+    }
+    if g.rng.chance(1, 10) {
+        g.feat("custom-formatter");
+        cfg.fmt_none_undef = true;
+    }
     let mut main = Tmpl { name: main_name.clone(), imports: imports.clone(), ..Default::default() };
     let nm = g.rng.below(3);
     for _ in 0..nm {
         let uc = g.rng.chance(1, 3);
         let m = g.macro_def(&sc, uc);
-        sc.macros.push((m.name.clone(), m.params.len(), m.uses_caller));
+        sc.macros.push((m.name.clone(), m.params.len(), m.uses_caller, None));
         main.macros.push(m);
     }
     let inherit = g.rng.chance(3, 10);
@@ -1877,9 +2435,10 @@ fn gen_program(seed: u64, idx: u64) -> (Program, Vec<&'static str>, Vec<S>, bool
     if inherit {
         g.feat("extends");
         // base: text + blocks; optional middle; main overrides
-        let mut base = Tmpl { name: "base.html".into(), imports: imports.clone(), ..Default::default() };
-        let mut bsc = base_scope.clone();
-        bsc.macros = sc.macros.iter().filter(|m| lib_names.contains(&m.0)).cloned().collect();
+        let base_name = *g.rng.pick(&["base.html", "base.html", "layout.txt", "base.xml"]);
+        let mut base = Tmpl { name: base_name.into(), imports: imports.clone(), ..Default::default() };
+        let mut bsc = sc.clone();
+        bsc.macros = sc.macros.iter().filter(|m| lib_macros.iter().any(|l| l.0 == m.0 || format!("{}a", l.0) == m.0)).cloned().collect();
         bsc.includes = sc.includes.clone();
         bsc.allow_include = true;
         let mut body = vec![];
@@ -1892,7 +2451,7 @@ fn gen_program(seed: u64, idx: u64) -> (Program, Vec<&'static str>, Vec<S>, bool
         body.extend(g.block(1, 1, &mut bsc.clone()));
         base.body = body;
         templates.push(base);
-        let mut parent = "base.html".to_string();
+        let mut parent = base_name.to_string();
         if g.rng.chance(1, 3) {
             g.feat("extends-3-levels");
             let mut mid = Tmpl { name: "mid.xml".into(), extends: Some(parent.clone()), imports: imports.clone(), ..Default::default() };
@@ -1907,11 +2466,33 @@ fn gen_program(seed: u64, idx: u64) -> (Program, Vec<&'static str>, Vec<S>, bool
         let mut csc = sc.clone();
         csc.sup = true;
         csc.allow_include = true;
+        // (the child's own macros are declared after these statements: only the imported ones are callable)
+        let mut presc = sc.clone();
+        presc.macros = bsc.macros.clone();
+        // statements of the child outside blocks: executed with the output discarded, what they set is seen by the blocks
+        if g.rng.chance(1, 2) {
+            g.feat("child-statements-outside-blocks");
+            let v = g.fresh("t");
+            if g.rng.chance(1, 2) {
+                let mut inner = presc.clone();
+                let nb = 1 + g.rng.below(2) as usize;
+                let b = g.block(nb, 0, &mut inner);
+                main.pre.push(S::SetBlock(v.clone(), b, None));
+            } else {
+                main.pre.push(S::Set(v.clone(), g.str_expr(2, &presc)));
+            }
+            main.pre.push(S::Text(g.text()));
+            main.pre.push(S::Emit(g.str_expr(2, &presc)));
+            csc.strs.push(v);
+        }
         let mut body = vec![];
         for bn in ["b1", "b2"] {
             if g.rng.chance(2, 3) {
                 let k = 1 + g.rng.below(3) as usize;
                 body.push(S::Block(bn.to_string(), g.block(k, 2, &mut csc.clone())));
+            }
+            if g.rng.chance(1, 4) {
+                body.push(S::Text(g.text()));
             }
         }
         main.body = body;
@@ -1924,7 +2505,7 @@ fn gen_program(seed: u64, idx: u64) -> (Program, Vec<&'static str>, Vec<S>, bool
     }
     templates.push(main);
     let feats = g.feats.clone();
-    (Program { templates, main: main_name, strs, lists, flags, tree, kinds }, feats, wrap_body, inherit)
+    (Program { templates, main: main_name, strs, lists, flags, tree, kinds, cfg }, feats, wrap_body, inherit)
 }
 
 fn tree_enc(ts: &[Tree]) -> String {
@@ -1957,12 +2538,26 @@ fn prog_ctx(p: &Program) -> serde_json::Map<String, serde_json::Value> {
 
 /// case json of a program given as AST: template sources for the engine, S-expressions for the model
 fn prog_case(stream: &str, templates: &[Tmpl], main: &str, ctx: &serde_json::Map<String, serde_json::Value>, strict: bool, extra: serde_json::Value) -> serde_json::Value {
+    prog_case_cfg(stream, templates, main, ctx, strict, &Cfg::default(), extra)
+}
+
+fn prog_case_cfg(stream: &str, templates: &[Tmpl], main: &str, ctx: &serde_json::Map<String, serde_json::Value>, strict: bool, cfg: &Cfg, extra: serde_json::Value) -> serde_json::Value {
     let mut t = serde_json::Map::new();
     for tm in templates {
         t.insert(tm.name.clone(), json!(tmpl_src(tm)));
     }
     let mut case = json!({"s": stream, "main": main, "t": t, "ctx": ctx, "strict": strict as u8,
-        "prog": prog_sx(templates, main), "ctxsx": ctx_sx(ctx)});
+        "prog": prog_sx(templates, main, cfg), "ctxsx": ctx_sx(ctx)});
+    if !cfg.modes.is_empty() {
+        let mut m = serde_json::Map::new();
+        for (n, c) in &cfg.modes {
+            m.insert(n.clone(), json!(c.to_string()));
+        }
+        case["modes"] = json!(m);
+    }
+    if cfg.fmt_none_undef {
+        case["fmt"] = json!("noneundef");
+    }
     if let Some(o) = extra.as_object() {
         for (k, v) in o {
             case[k] = v.clone();
@@ -1978,7 +2573,7 @@ fn gen_programs(out: &mut impl Write, tier: &str) {
     for idx in 0..n {
         let (p, feats, wrap_body, inherit) = gen_program(master.next(), idx);
         let ctx = prog_ctx(&p);
-        let case = prog_case("P", &p.templates, &p.main, &ctx, true, json!({"idx": idx, "seed": seed, "feats": feats}));
+        let case = prog_case_cfg("P", &p.templates, &p.main, &ctx, true, &p.cfg, json!({"idx": idx, "seed": seed, "feats": feats}));
         let res = run_case(&case);
         writeln!(out, "{}\t{}", case, res).unwrap();
         // wrappers: the same body inside a capturing construct renders identically
@@ -1988,6 +2583,7 @@ fn gen_programs(out: &mut impl Write, tier: &str) {
             let mut ts: Vec<Tmpl> = p.templates.iter().filter(|x| x.name != p.main).cloned().collect();
             let mut main = p.templates.iter().find(|x| x.name == p.main).unwrap().clone();
             let b = wrap_body.clone();
+            let mut wcfg = p.cfg.clone();
             match kind {
                 "set-block" => main.body = vec![S::SetBlock("w".into(), b, None), S::Emit(E::Var("w".into()))],
                 "set-block-twice" => main.body = vec![
@@ -2005,8 +2601,13 @@ fn gen_programs(out: &mut impl Write, tier: &str) {
                 }
                 "filter-block" => main.body = vec![S::FilterBlock("string".into(), "string".into(), vec![], b)],
                 "include" => {
-                    ts.push(Tmpl { name: "winc.html".into(), extends: None, imports: main.imports.clone(), macros: std::mem::take(&mut main.macros), body: b });
-                    main.body = vec![S::Include("winc.html".into())];
+                    // the included template must select the mode of the including one
+                    let wname = format!("w_{}", p.main.replace('/', "_"));
+                    if let Some((_, m)) = p.cfg.modes.iter().find(|(n, _)| *n == p.main) {
+                        wcfg.modes.push((wname.clone(), *m));
+                    }
+                    main.body = vec![S::Include(wname.clone())];
+                    ts.push(Tmpl { name: wname, extends: None, imports: main.imports.clone(), pre: main.pre.clone(), macros: std::mem::take(&mut main.macros), body: b });
                 }
                 "block" => {
                     ts.push(Tmpl { name: "wbase.html".into(), body: vec![S::Block("c".into(), vec![])], ..Default::default() });
@@ -2014,13 +2615,13 @@ fn gen_programs(out: &mut impl Write, tier: &str) {
                     main.body = vec![S::Block("c".into(), b)];
                 }
                 _ => {
-                    ts.push(Tmpl { name: "wbase.html".into(), extends: None, imports: main.imports.clone(), macros: std::mem::take(&mut main.macros), body: vec![S::Block("c".into(), b)] });
+                    ts.push(Tmpl { name: "wbase.html".into(), extends: None, imports: main.imports.clone(), pre: main.pre.clone(), macros: std::mem::take(&mut main.macros), body: vec![S::Block("c".into(), b)] });
                     main.extends = Some("wbase.html".into());
                     main.body = vec![S::Block("c".into(), vec![S::Emit(E::Super)])];
                 }
             }
             ts.push(main);
-            let wcase = prog_case("W", &ts, &p.main, &ctx, true, json!({"idx": idx, "seed": seed, "kind": kind, "plain": res}));
+            let wcase = prog_case_cfg("W", &ts, &p.main, &ctx, true, &wcfg, json!({"idx": idx, "seed": seed, "kind": kind, "plain": res}));
             let wres = run_case(&wcase);
             writeln!(out, "{}\t{}", wcase, wres).unwrap();
         }
@@ -2036,9 +2637,20 @@ fn main() {
         Some("gen") => {
             let tier = args.get(2).map(|s| s.as_str()).unwrap_or("quick");
             gen_fc(&mut out, tier);
+            if args.get(3).map(|s| s.as_str()) == Some("-") {
+                // the table of registered callables (regenerated from the sources): `kind<TAB>name` lines
+                let mut text = String::new();
+                std::io::Read::read_to_string(&mut std::io::stdin(), &mut text).unwrap();
+                let callables: Vec<(String, String)> = text.lines().filter_map(|l| l.split_once('\t')).map(|(k, n)| (k.to_string(), n.to_string())).collect();
+                gen_generic(&mut out, &callables);
+            }
             gen_modes(&mut out);
             gen_names(&mut out);
             gen_kinds(&mut out);
+            gen_cross(&mut out);
+            gen_blocks(&mut out);
+            gen_exprs(&mut out);
+            gen_formatter(&mut out);
             gen_programs(&mut out, tier);
             gen_numbers(&mut out);
             gen_x(&mut out);
